@@ -79,6 +79,11 @@ func hC14on(fsys fs.FileSystem, dir string, n, L, vlen int) {
 		if a != nil {
 			vAssert(!vReachable(db, a), "C14.getappend.result-not-owned-by-db-or-file")
 		}
+		nb, err := db.GetAppend(key, nil)
+		vAssert(err == nil, "C14.getappend-nil.err")
+		if nb != nil {
+			vAssert(!vReachable(db, nb), "C14.getappend-nil.result-not-owned-by-db-or-file")
+		}
 		roomy := make([]byte, 1, 64)
 		roomy[0] = 0x22
 		b, err := db.GetAppend(key, roomy)
